@@ -31,8 +31,20 @@ def design_level(rep):
         rv = V.tlc(mc, cfg=os.path.join(SPEC, "MC_Scopes_vac_%s.cfg" % w), workers=2, timeout=600, tag="C16-vac-" + w)
         if not rv.invariant_violated:
             raise V.ToolError("vacuous MC_Scopes space: witness '%s' not found" % w)
+    mm = os.path.join(SPEC, "MC_Macros.tla")
+    r2 = V.tlc(mm, cfg=os.path.join(SPEC, "MC_Macros.cfg"), workers=4, timeout=1200, tag="C16-mm")
+    rep.add_tlc(r2)
+    if r2.invariant_violated:
+        rep.violations.append({"why": "design level: MC_Macros invariant violated", "replay": {"tlc_output": V.tail(r2.out, 60)}, "id": "MC_Macros"})
+        return None
+    if r2.rc != 0 or "Error:" in r2.out:
+        raise V.ToolError("MC_Macros failed:\n" + V.tail(r2.out, 40))
+    if not V.tlc(mm, cfg=os.path.join(SPEC, "MC_Macros_vac_shadow.cfg"), workers=2, timeout=600, tag="C16-vac-shadow").invariant_violated:
+        raise V.ToolError("vacuous MC_Macros space: no macro call next to a non-macro symbol of the same name")
+    rep.notes.append("MC_Macros: %d programs (macros with parameters, calls in taken/untaken if-else branches, a constant named like a macro): RefsInverse, "
+                     "CallsDenoteMacros, ParamsApart, FreshRenameIsCaptureFree hold; witness: shadowed calls exist" % r2.distinct)
     rep.notes.append("MC_Scopes: %d programs; AgreesWithAsm, RefsInverse, FreshRenameIsCaptureFree hold; witnesses: error-free programs and capturing renames exist" % r.distinct)
-    return D.tlc_cases(r)
+    return D.tlc_cases(r), D.tlc_cases(r2)
 
 
 def observe(mos, p):
@@ -48,11 +60,14 @@ def main(tier):
     asts = design_level(rep)
     if asts is None:
         return rep.finish()
+    asts, masts = asts
     rnd = V.rng("C16")
     wd = V.fresh_dir("C16")
     rnd.shuffle(asts)
+    rnd.shuffle(masts)
     if tier == "quick":
-        asts = asts[:160]
+        asts, masts = asts[:130], masts[:70]
+    asts = asts + masts
     projs = []
     with ThreadPoolExecutor(max_workers=6) as ex:
         projs = [p for p in ex.map(lambda i: D.project_from_ast(asts[i], mos, os.path.join(wd, "t%04d" % i), 100000 + i), range(len(asts))) if p["ok"]]
@@ -101,15 +116,15 @@ def main(tier):
     rep.cov["traces_validated_against_impl"] = len(recs)
     rep.cov["evaluations"] = nocc * 4
     rep.cov["distinct_nontrivial"] = len({json.dumps(p["texts"], sort_keys=True) for p in projs})
-    rep.cov["rule"] = ("error-free projects (checked with `mos build`): TLC-enumerated 3-level scope skeletons with all shadowing combinations x 8 path forms, and seeded generated "
-                       "projects (nested label scopes, braces, constants, dotted/super paths, untaken .if, every third with an imported file); definition, references(+/- declaration) "
+    rep.cov["rule"] = ("error-free projects (checked with `mos build`): TLC-enumerated 3-level scope skeletons with all shadowing combinations x 8 path forms, TLC-enumerated macro/if-else programs (MC_Macros), and seeded generated "
+                       "projects (nested label scopes, braces, constants, dotted/super paths, untaken .if, .if/else with either branch taken, macros with parameters called from taken and untaken code, constants named like a macro, every third with an imported file); definition, references(+/- declaration) "
                        "and documentHighlight at every identifier occurrence incl. every path segment; distinct = distinct project texts")
     rep.cov["occurrences"] = nocc
     for p in projs[:2] + gen[:2]:
         rep.sample({"main.asm": p["texts"]["main.asm"], "occurrences": len(p["occ"])})
     rep.assumptions += ["references and highlights are judged at definition sites (the property speaks of find-references on a definition); go-to-definition at every occurrence",
                         "a `super` segment denotes the label owning the scope it reaches; for anonymous scopes and the root any answer is accepted",
-                        "macros, string interpolation and `import .. as` forms are not generated yet"]
+                        "macro bodies use their parameters only (a body is resolved from the calling scope, so other names would mean different things per call); string interpolation and `import .. as` forms are not generated yet"]
     for v in verdicts:
         p = byid.get(v["id"])
         rep.verdict(v, {"texts": p["texts"] if p else None, "occ": p["occ"] if p else None, "judge": "spec/Scopes/NavTrace.tla", "why": v.get("why")})
